@@ -110,8 +110,9 @@ func (e *ELet) exprString() string {
 // Contract items
 
 type Clause struct {
-	Kind  string // requires ensures panics_if panics_iff invariant assert
-	Label string
+	Kind   string // requires ensures panics_if panics_iff invariant assert
+	Reveal []string // opaque spec functions whose definition is made available (quantified) for this clause
+	Label  string
 	Props []string
 	E     Expr
 	Src   string // file:line
@@ -635,6 +636,9 @@ func (p *parser) parsePrimary() Expr {
 		case "false":
 			return &EBool{false}
 		case "old":
+			if !p.isOp("(") {
+				return &EIdent{Name: t.text} // a variable that happens to be called old
+			}
 			p.expectOp("(")
 			x := p.parseExpr()
 			p.expectOp(")")
@@ -741,11 +745,18 @@ var reTags = regexp.MustCompile(`^\[([^\]]*)\]\s*`)
 var reProp = regexp.MustCompile(`^C[0-9]{2,3}$`)
 
 func parseTags(s string) (props []string, label string, rest string) {
+	props, label, _, rest = parseTagsR(s)
+	return
+}
+
+func parseTagsR(s string) (props []string, label string, reveal []string, rest string) {
 	rest = s
 	if m := reTags.FindStringSubmatch(s); m != nil {
 		for _, w := range strings.Fields(m[1]) {
 			if reProp.MatchString(w) {
 				props = append(props, w)
+			} else if strings.HasPrefix(w, "reveal:") {
+				reveal = append(reveal, strings.TrimPrefix(w, "reveal:"))
 			} else {
 				label = w
 			}
@@ -872,12 +883,12 @@ func parseClauseInto(fs *FuncSpec, l rawLine) error {
 	kw := firstWord(l.text)
 	body := strings.TrimSpace(l.text[len(kw):])
 	mk := func(kind, s string) (*Clause, error) {
-		props, label, rest := parseTags(s)
+		props, label, reveal, rest := parseTagsR(s)
 		e, err := parseExprString(rest)
 		if err != nil {
 			return nil, err
 		}
-		return &Clause{Kind: kind, Label: label, Props: props, E: e, Src: l.src, Text: rest}, nil
+		return &Clause{Kind: kind, Label: label, Props: props, Reveal: reveal, E: e, Src: l.src, Text: rest}, nil
 	}
 	switch kw {
 	case "requires", "ensures", "panics_if", "panics_iff":
